@@ -31,6 +31,7 @@ type Cfg struct {
 	HTTP        bool    `json:"http"`         // allow http documents
 	RootElems   bool    `json:"rootelems"`    // root has parameters/responses sections
 	CaseTwins   bool    `json:"casetwins"`    // some definitions get a twin whose name differs in letter case only
+	IDScopes    bool    `json:"idscopes"`     // self-contained sub-schemas that declare an id (from a tiny pool) and refer to their own local definitions (C18 only: the model ignores id)
 	SelfIDs     bool    `json:"selfids"`      // bare-schema documents carry their own URL as id (published schemas)
 }
 
@@ -234,6 +235,16 @@ func (g *gen) schema(doc string, d int, ord int, top bool) map[string]interface{
 		}
 		if h, ok := g.schemaRef(doc, min); ok {
 			return h
+		}
+	}
+	if g.cfg.IDScopes && g.r.Intn(4) == 0 {
+		// an id-scoped block: the same few ids are declared by several schemas with different content
+		g.uniq++
+		id := []string{"scope/a.json", "scope/b.json", "http://ids.test/scope/c.json"}[g.r.Intn(3)]
+		return map[string]interface{}{
+			"id": id, "description": fmt.Sprintf("scope%d", g.uniq),
+			"definitions": map[string]interface{}{"L": map[string]interface{}{"type": "string", "description": fmt.Sprintf("local%d", g.uniq)}},
+			"properties":  map[string]interface{}{"v": map[string]interface{}{"$ref": "#/definitions/L"}},
 		}
 	}
 	if d >= g.cfg.MaxDepth {
